@@ -1,6 +1,6 @@
 /-
 C17 — the record-level writers of `dbi.FlatfileMapping` (src/dbi.py:160-262).  They do not go through
-AtomicFile: `add`, `set` and `remove` open the database `'r+'` and write in place through one buffered
+AtomicFile: `add` and `remove` (and, before its repair, `set`) open the database `'r+'` and write in place through one buffered
 handle; `seek` and `close` push the buffer to the disk.  (`FlatfileMapping.flush` is a no-op: these
 calls *are* the persistence of every plugin database that uses the 'flat' mapping.)
 -/
@@ -48,13 +48,16 @@ def openRW (disk : Bytes) : H := { disk := disk, pos := 0, pend := [], pendAt :=
 /-- what is on disk when the process dies after `k` calls -/
 def crashAt (disk : Bytes) (ops : List Op) (k : Nat) : Bytes := (run (openRW disk) (ops.take k)).disk
 
-/-- `FlatfileMapping.add(s)`: append the record line, then (`finally: _incrementCurrentId(fd)`)
-rewrite the fixed-width counter at the start of the file -/
-def addOps (line header' : Bytes) : List Op := [.seekEnd, .write line, .seek 0, .write header', .close]
+/-- `FlatfileMapping.add(s)`: rewrite the fixed-width id counter at the start of the file
+(`_incrementCurrentId(fd)`), then append the record line -/
+def addOps (line header' : Bytes) : List Op := [.seek 0, .write header', .seekEnd, .write line, .close]
 
-/-- `FlatfileMapping.set(id, s)` for an existing record starting at `off`: blank its id (`remove`),
-then append the new line -/
-def setOps (off : Nat) (blank line : Bytes) : List Op :=
+/-- `add` as it was before the repair: record first, counter afterwards (`finally:`) -/
+def addOpsOld (line header' : Bytes) : List Op := [.seekEnd, .write line, .seek 0, .write header', .close]
+
+/-- `set` as it was before the repair (it now rewrites the file through AtomicFile, see
+`C17.flat_set_atomic`): blank the id of the old record at `off`, then append the new line -/
+def setOpsOld (off : Nat) (blank line : Bytes) : List Op :=
   [.seek 0, .seek off, .write blank, .seek off, .seekEnd, .write line, .close]
 
 /-- `FlatfileMapping.remove(id)` for the record starting at `off` -/
